@@ -79,6 +79,10 @@ func (c *ctx) probeConn(i int) {
 			if k >= len(invs) {
 				if quiet {
 					c.v("C05/packet-not-delivered", "conn %d: packet op %d %s was sent in full and never reached a handler (got %d invocations)", id, pr.Op, hstr(pr.H), len(invs))
+					if pr.SameKey && c.logHas("bad secret detected") {
+						c.v("C03/valid-packet-read-as-key-mismatch", "conn %d: packet op %d %s was obfuscated (or sent in clear) exactly as the connection's secret and its flags say, yet the receiver did not recover the cleartext and treated it as a key mismatch", id, pr.Op, hstr(pr.H))
+						c.v("C19/valid-request-flagged", "conn %d: request %s is well-formed under the connection's secret yet was treated as a key mismatch", id, hstr(pr.H))
+					}
 					if sessionsOn(cs) > 1 {
 						c.v("C09/multiplexed-session-disturbed", "conn %d carries %d sessions; packet op %d %s of one of them never reached a handler although every packet follows the rules: what happened to another session's request ended this one", id, sessionsOn(cs), pr.Op, hstr(pr.H))
 					}
@@ -92,6 +96,12 @@ func (c *ctx) probeConn(i int) {
 			k++
 			served[pr.H.Session] = true
 			if inv.H != pr.H {
+				if x := inv.H; x.Flags != pr.H.Flags {
+					x.Flags = pr.H.Flags
+					if x == pr.H {
+						c.v("C03/flags-altered-on-receipt", "conn %d invocation %d: the packet arrived with flags %#x, the handler was given %#x: the receiver rewrote the flag octet (and with it whether the body is read as clear or obfuscated)", id, inv.Index, pr.H.Flags, inv.H.Flags)
+					}
+				}
 				c.v("C05/header-differs", "conn %d invocation %d: handler saw header %s, client sent %s", id, inv.Index, hstr(inv.H), hstr(pr.H))
 				goto replies
 			}
